@@ -1,11 +1,31 @@
 """Source of truth for MANIFEST.json (run tools/mkmanifest.py after editing)."""
 
 ENGINES = [
-    dict(name="enumx", path="/verif/vlib/runner.py", serves_properties=["C10"],
+    dict(name="enumx", path="/verif/vlib/runner.py", serves_properties=["C03","C04","C10","C11","C15","C17"],
          kind_free_text="bounded-exhaustive enumeration of an explicit finite case space over the real implementation, 16-way fan-out, reference model oracle"),
 ]
 
 CHECKS = [
+    dict(id="C03", engine="enumx", level="exploration", design_ref="DESIGN.md §5 C03",
+         technique="bounded-exhaustive enumeration of count arrays (fingerprint, single-cell, all 0/1) and sample matrices against an explicit-loop leave-one-out reference",
+         text="Every container/shape/content of the stated alphabet is pushed through sample_patch_sum, CorrFunc.sample, RedshiftData.from_corrfuncs, HistData.from_catalog and covariance and compared with a leave-one-out recomputation in patch-index order; fingerprint contents make any permuted, lost or doubled patch visible.",
+         note="Bounds: <=3 bins, <=5 patches. Linearity argument: all statistics are sums over cells, so single-cell and 0/1 arrays form a basis. End-to-end leave-one-patch-out on real catalogs is part of C13/C01 worlds."),
+    dict(id="C04", engine="enumx", level="exploration", design_ref="DESIGN.md §5 C04",
+         technique="bounded-exhaustive enumeration of member subsets x contents x binnings against formulas typed from the statement",
+         text="All 7 member subsets x auto/cross x contents x binnings are sampled and compared with (DD-DR-RD+RR)/RR resp. DD/DR-1, the n(z) formula and the unit integral; cases are counted non-trivial only if alternative formulas give different numbers on them.",
+         note="Where the statement defines nothing (LS without DR) every behaviour is accepted."),
+    dict(id="C11", engine="enumx", level="exploration", design_ref="DESIGN.md §5 C11",
+         technique="bounded-exhaustive enumeration of persisted products (HDF5, YAML, text, metadata, cache) with write/read-back comparison",
+         text="Every product of the stated parameter/content alphabets is written and re-read with the real I/O code and compared field by field (own snapshot comparison, the library's ==, downstream sample()).",
+         note="Text precision bound derived from the fixed-width format (truncation to the kept decimals). Catalog cache round trips are covered in depth by C02."),
+    dict(id="C15", engine="enumx", level="exploration", design_ref="DESIGN.md §5 C15",
+         technique="bounded-exhaustive enumeration of configuration parameters and of all single/pair modifications against independent references (bisection on astropy distances, r/D(z))",
+         text="The full create() parameter product, an invalid-parameter alphabet and every single and pairwise modification of 8 base configurations are compared with reference edges/angles and with create(**merged).",
+         note="Interior comoving edges compared to 1e-6 (solver tolerance), outer edges exactly. Merged semantics for switching between custom and generated edges are only exercised where unambiguous (see ASSUMPTIONS in checks/c15.py)."),
+    dict(id="C17", engine="enumx", level="exploration", design_ref="DESIGN.md §5 C17",
+         technique="bounded-exhaustive enumeration of containers x operations x scalars x index expressions against plain numpy on snapshots",
+         text="For every container type/shape/member subset every operator, scalar, integer index, slice and iteration is executed and compared with numpy selections/arithmetics on a snapshot; incompatible operands must raise.",
+         note="Empty selections may raise or be empty (not defined by the statement)."),
     dict(id="C10", engine="enumx", level="exploration", design_ref="DESIGN.md §5 C10",
          technique="bounded-exhaustive enumeration of edge-valued redshift inputs against an interval-predicate reference model",
          text="Every element of an explicit finite input space (edge arrays x closed side x redshifts on/1ulp around every edge x object layouts over two patches x weights) is run through the real catalog->trees->measurement and histogram paths and compared with the interval predicate; exhaustive within the stated alphabet.",
